@@ -91,4 +91,19 @@ PROPS = {
         "rule": "per method: truncation at every position, every type marker replaced, every typed slot corrupted, token deletion / "
                 "duplication, appended tokens, random token lists; non-trivial = distinct (method, token list)",
     },
+    "C07": {
+        "lean": ["AriVerif.Props.C07"],
+        "gen": [],
+        "streams": [s_wire.stream_writers, s_wire.stream_meta],
+        "trusted": [KERNEL, HARNESS, "Spec/Reply.lean (the conforming reply decoder incl. base64) is hand-written from the protocol",
+                    "floats are opaque: the line carries CPython's repr verbatim; float(repr(x)) == x is CPython's contract, tested on "
+                    "random doubles of all binades by the writers differential (repr compared), not proved",
+                    "modelled, not verified: base64.b64encode, str(int), isinstance-based type guards of CPython"],
+        "assumptions": ["text slots accept str and bytes (the repository's tests fix bytes as text: test_gis_tobe_quoted_from_bytes)",
+                        "container-shape errors (a non-iterable where a list is expected, DESIGN I-5) are outside the property; the model "
+                        "reproduces them as `pyType` and the differential compares them"],
+        "rule": "every writer with C05-domain strings in every text slot, bytes of all values and lengths 0..300, None, 0..8 elements, ints "
+                "over magnitudes, floats over all binades (random bit patterns), every order of modes, booleans, and a type-confusion "
+                "stream placing {int, bool, float, bytes, str, None, list, dict, tuple, object} in every slot; non-trivial = distinct operation",
+    },
 }
